@@ -47,7 +47,93 @@ fn p2s(p: Option<u32>) -> String { match p { None => String::new(), Some(v) => v
 /// what the recogniser delivers for a (possibly omitted) first parameter
 fn dl(p: Option<u32>) -> Option<u32> { Some(p.unwrap_or(0)) }
 
+/// States that ordinary use produces but a builder organised around one property tends to miss: boundary geometries,
+/// wide characters at edges and with missing placeholders, rows with holes, the cursor outside the scrolling region or
+/// in the pending-wrap column, a remembered DECCOLM width, tab stops beyond the width, content cut by a shrink, saved
+/// cursors taken under another geometry, reverse video, insert mode without autowrap, shifted charsets, ...
+pub fn exotic_states(rng: &mut Rng) -> Vec<Screen> {
+    let scripts: Vec<(u32, u32, Box<dyn Fn(&mut Screen)>)> = vec![
+        (1, 1, Box::new(|_s| {})),
+        (1, 1, Box::new(|s| { s.draw("a"); })),
+        (1, 3, Box::new(|s| { s.draw("ab"); s.set_margins(Some(2), Some(3)); })),
+        (3, 1, Box::new(|s| { s.draw("\u{4e2d}"); s.draw("x"); })),
+        (2, 2, Box::new(|s| { s.cursor_position(Some(1), Some(2)); s.draw("\u{4e2d}"); })),
+        (3, 2, Box::new(|s| { s.draw("ab\u{4e2d}"); s.resize(None, Some(6)); })),
+        (4, 2, Box::new(|s| { s.draw("ab\u{4e2d}"); s.cursor_to_column(Some(4)); s.delete_characters(Some(1)); })),
+        (4, 2, Box::new(|s| { s.draw("\u{30b3}"); s.cariage_return(); s.draw("a"); })),
+        (10, 3, Box::new(|s| { s.cursor_position(Some(2), Some(6)); s.draw("XYZ"); s.cursor_position(Some(2), Some(3)); })),
+        (10, 3, Box::new(|s| { s.cursor_position(Some(1), Some(5)); s.select_graphic_rendition(&[1, 31, 44]); s.draw("hello"); s.cursor_position(Some(1), Some(9)); })),
+        (6, 5, Box::new(|s| { s.set_margins(Some(2), Some(3)); s.cursor_position(Some(5), Some(2)); })),
+        (6, 5, Box::new(|s| { s.set_margins(Some(3), Some(4)); s.cursor_position(Some(1), Some(6)); s.draw("ab"); })),
+        (6, 5, Box::new(|s| { s.set_margins(Some(2), Some(4)); s.set_mode(&[6], true); s.cursor_position(Some(3), Some(6)); s.draw("q"); })),
+        (5, 4, Box::new(|s| { s.set_margins(Some(2), Some(3)); s.set_mode(&[6], true); s.cursor_position(Some(2), Some(1)); for _ in 0..5 { s.draw("w"); } })),
+        (10, 2, Box::new(|s| { s.draw("0123456789"); s.set_mode(&[3], true); })),
+        (10, 2, Box::new(|s| { s.set_mode(&[3], true); s.resize(None, Some(20)); s.draw("abc"); })),
+        (24, 2, Box::new(|s| { s.cursor_to_column(Some(17)); s.set_tab_stop(); s.cursor_to_column(Some(21)); s.set_tab_stop(); s.resize(None, Some(10)); })),
+        (8, 2, Box::new(|s| { s.draw("12345678"); s.set_tab_stop(); s.clear_tab_stop(Some(3)); })),
+        (5, 3, Box::new(|s| { s.select_graphic_rendition(&[7, 32]); s.draw("ab"); s.set_mode(&[5], true); s.cursor_position(Some(2), Some(2)); s.draw("c"); })),
+        (5, 3, Box::new(|s| { s.set_mode(&[5], true); s.select_graphic_rendition(&[27, 4]); s.draw("rv"); s.reset_mode(&[5], true); s.set_mode(&[5], true); })),
+        (4, 2, Box::new(|s| { s.set_mode(&[4], false); s.reset_mode(&[7], true); s.draw("abcd"); })),
+        (4, 2, Box::new(|s| { s.set_mode(&[4], false); s.draw("ab"); s.cursor_position(Some(1), Some(1)); })),
+        (5, 3, Box::new(|s| { for r in 0..3 { s.cursor_position(Some(r + 1), Some(1)); s.draw("abcde"); } s.resize(Some(2), Some(3)); s.resize(Some(4), Some(8)); })),
+        (10, 10, Box::new(|s| { s.cursor_position(Some(9), Some(8)); s.save_cursor(); s.resize(Some(5), Some(5)); s.save_cursor(); s.resize(Some(7), Some(12)); })),
+        (6, 3, Box::new(|s| { s.set_margins(Some(1), Some(2)); s.save_cursor(); s.set_margins(Some(2), Some(3)); s.set_mode(&[6], true); })),
+        (6, 2, Box::new(|s| { s.draw("e"); s.draw("\u{301}"); s.draw("u"); s.draw("\u{308}"); s.cursor_position(Some(2), Some(1)); })),
+        (6, 2, Box::new(|s| { s.define_charset("0", ")"); s.shift_out(); s.draw("lqk"); s.define_charset("U", "("); })),
+        (6, 2, Box::new(|s| { s.set_title("t\u{e9}"); s.set_icon_name("i"); s.draw("x"); s.display(); })),
+        (7, 3, Box::new(|s| { s.draw("abc"); s.linefeed(); s.draw("\u{4e2d}\u{4e2d}"); s.display(); s.cursor_position(Some(2), Some(5)); s.delete_characters(Some(1)); })),
+        (132, 2, Box::new(|s| { s.cursor_to_column(Some(132)); s.draw("zz"); })),
+        (9, 3, Box::new(|s| { s.cursor_position(Some(3), Some(9)); s.draw("x"); s.reset_mode(&[25], true); })),
+        (3, 3, Box::new(|s| { s.alignment_display(); s.cursor_position(Some(2), Some(2)); s.erase_characters(Some(1)); s.set_margins(Some(1), Some(2)); })),
+    ];
+    let mut out = Vec::new();
+    for (c, l, f) in scripts.iter() {
+        for clear in [true, false] {
+            let r = safe(|| { let mut s = Screen::new(*c, *l); f(&mut s); if clear { s.dirty.clear(); } s });
+            if let Some(s) = r { out.push(s); }
+        }
+    }
+    // a short random suffix on a copy of some of them
+    let n = out.len();
+    for k in 0..n { if k % 3 != 0 { continue; } let mut t = fork(&out[k]); let mut ok = true; for _ in 0..(1 + rng.below(3)) { let o = gen_op(rng, &t); if matches!(o, Op::Display) { continue; } if safe(|| o.apply(&mut t)).is_none() { ok = false; break; } } if ok { t.dirty.clear(); out.push(t); } }
+    out
+}
+fn op_of(prop: &str, o: &Op) -> bool {
+    match prop {
+        "C04" => matches!(o, Op::Draw(_)),
+        "C05" => matches!(o, Op::Cuu(_) | Op::Cud(_) | Op::Cuf(_) | Op::Cub(_) | Op::Cnl(_) | Op::Cpl(_) | Op::Cha(_) | Op::Vpa(_) | Op::Cup(_, _) | Op::Backspace | Op::CR),
+        "C06" => matches!(o, Op::Index | Op::RevIndex | Op::Linefeed | Op::Il(_) | Op::Dl(_) | Op::Margins(_, _)),
+        "C07" => matches!(o, Op::Ed(_) | Op::El(_) | Op::Ech(_)),
+        "C08" => matches!(o, Op::Sgr(_)),
+        "C12" => matches!(o, Op::Sm(_, _) | Op::Rm(_, _)),
+        "C13" => matches!(o, Op::Ich(_) | Op::Dch(_)),
+        "C14" => matches!(o, Op::Save | Op::Restore),
+        "C15" => matches!(o, Op::Reset),
+        "C16" => matches!(o, Op::Resize(_, _)),
+        "C18" => matches!(o, Op::Tab | Op::SetTab | Op::Tbc(_) | Op::Reset),
+        "C20" => matches!(o, Op::Draw(_) | Op::ShiftOut | Op::ShiftIn | Op::DefCharset(_, _)),
+        "C09" | "C17" | "C01" => !matches!(o, Op::Display),
+        _ => false,
+    }
+}
+/// every plan ends with its own operations probed from the exotic states
+fn universal(prop: &str, em: &mut Em, rng: &mut Rng, thorough: bool) {
+    let sts = exotic_states(rng);
+    if prop == "C10" { for s in sts.iter() { em.display_probe(s); } return; }
+    if !matches!(prop, "C04" | "C05" | "C06" | "C07" | "C08" | "C09" | "C12" | "C13" | "C14" | "C15" | "C16" | "C17" | "C18" | "C20" | "C01") { return; }
+    let per = if thorough { 40 } else { 10 };
+    for s in sts.iter() {
+        let mut got = 0; let mut tries = 0;
+        while got < per && tries < 4000 { tries += 1; let o = gen_op(rng, s); if !op_of(prop, &o) { continue; } em.probe(s, &o); got += 1;
+            if matches!(prop, "C15" | "C14") && got >= 2 { break; } }
+    }
+}
+
 pub fn run(mode: &str, em: &mut Em, rng: &mut Rng, thorough: bool) {
+    run_plan(mode, em, rng, thorough);
+    universal(mode, em, rng, thorough);
+}
+fn run_plan(mode: &str, em: &mut Em, rng: &mut Rng, thorough: bool) {
     match mode {
         "C01" => c01(em, rng, thorough), "C02" => c02(em, rng, thorough), "C03" => c03(em, rng, thorough),
         "C04" => c04(em, rng, thorough), "C05" => c05(em, rng, thorough), "C06" => c06(em, rng, thorough),
@@ -233,6 +319,14 @@ fn c18(em: &mut Em, rng: &mut Rng, thorough: bool) {
                 if rng.chance(1, 8) { em.probe(&f, &Op::SetTab); em.probe(&f, &Op::Tbc(None)); em.probe(&f, &Op::Tbc(Some(3))); em.probe(&f, &Op::Tbc(Some(5))); em.probe(&f, &Op::Reset); } }
         } }
     }
+    // reset and HT while a DECCOLM width is remembered (saved_columns), also after a further resize
+    for &w in [8u32, 10, 80, 132, 140].iter() { for extra in [None, Some(20u32), Some(150)] {
+        let mut s = Screen::new(w, 2);
+        let r = safe(move || { s.set_mode(&[3], true); if let Some(nw) = extra { s.resize(None, Some(nw)); } s });
+        if let Some(mut s) = r { em.probe(&s, &Op::Reset); em.probe(&s, &Op::Rm(vec![3], true));
+            for x in [0u32, 7, 8, 79, 80, 131] { let mut f = fork(&s); let _ = safe(|| f.cursor_to_column(Some(x + 1))); em.probe(&f, &Op::Tab); }
+            let _ = safe(|| s.reset()); for x in [0u32, 7, 8, 79, 80, 131] { let mut f = fork(&s); let _ = safe(|| f.cursor_to_column(Some(x + 1))); em.probe(&f, &Op::Tab); } }
+    } }
     // DECCOLM between setting and using a stop
     let mut s = Screen::new(80, 2);
     for o in [Op::Sm(vec![3], true), Op::Cha(Some(120)), Op::SetTab, Op::Rm(vec![3], true), Op::Cha(Some(75)), Op::Tab, Op::Tab] { em.probe(&s, &o); let _ = safe(|| o.apply(&mut s)); }
@@ -246,6 +340,9 @@ fn c20(em: &mut Em, rng: &mut Rng, _thorough: bool) {
         let o = if shifted { Op::ShiftOut } else { Op::ShiftIn }; em.probe(&s, &o); o.apply(&mut s);
         for cp in 0..256u32 { let t = char::from_u32(cp).unwrap().to_string(); em.probe(&s, &Op::Draw(t)); }
         for cp in [256u32, 0x2500, 0x3042, 0x416, 0xffff] { em.probe(&s, &Op::Draw(char::from_u32(cp).unwrap().to_string())); }
+        // translation is per code point: strings that mix code points below 256 and above 255, in every order
+        { let w = Screen::new(8, 2); let mut w2 = fork(&w); let o1 = Op::DefCharset(code.into(), slot.into()); o1.apply(&mut w2); let o2 = if shifted { Op::ShiftOut } else { Op::ShiftIn }; o2.apply(&mut w2);
+          for t in ["lq\u{3bb}qk", "\u{3042}a", "a\u{3042}", "q\u{100}q", "\u{e9}\u{416}x", "xq\u{ffff}", "\u{4e2d}\u{e9}q~"] { em.probe(&w2, &Op::Draw(t.to_string())); } }
         // through the recogniser, 8-bit mode (designators/shifts act) and UTF-8 mode (ignored)
         for utf8 in [false, true] { for _ in 0..24 { let cp = rng.below(256) as u32; if (cp < 0x20 && cp != 0) || cp == 0x9b || cp == 0x9d { continue; } let ch = char::from_u32(cp).unwrap();
             let f = Screen::new(2, 1); let text = format!("\u{1b}{}{}{}{}", slot, code, if shifted { "\u{e}" } else { "\u{f}" }, ch);
@@ -328,6 +425,29 @@ fn histories(em: &mut Em, rng: &mut Rng, n: usize, geos: &[(u32, u32)]) {
 
 // ------------------------------------------------------------------ C10 display
 fn c10(em: &mut Em, rng: &mut Rng, thorough: bool) {
+    // wide characters whose placeholder is missing, overwritten, deleted, shifted away or never existed (last column), on
+    // never-written and on written rows, also after the row became wider or narrower
+    for &(c, l) in [(2u32, 1u32), (3, 1), (4, 2), (6, 2)].iter() { for x in 0..c { for edit in 0..11u32 { for fillk in [0u8, 1] { for wide in ["\u{4e2d}", "\u{30b3}\u{30f3}"] {
+        let mut sp = base_spec(c, l); sp.fill = fillk;
+        let mut s = match build(&sp, rng) { Some(s) => s, None => continue };
+        let r = safe(move || {
+            s.cursor_position(Some(1), Some(x + 1)); s.draw(wide);
+            match edit {
+                0 => {}
+                1 => s.resize(None, Some(c + 1 + (x % 3))),
+                2 => { s.cursor_position(Some(1), Some(x + 2)); s.delete_characters(Some(1)); }
+                3 => { s.cursor_position(Some(1), Some(x + 2)); s.insert_characters(Some(1)); }
+                4 => { s.cursor_position(Some(1), Some(x + 1)); s.draw("a"); }
+                5 => { s.cursor_position(Some(1), Some(x + 2)); s.draw("b"); }
+                6 => { s.cursor_position(Some(1), Some(x + 2)); s.erase_in_line(Some(0), None); }
+                7 => { s.cursor_position(Some(1), Some(x + 2)); s.erase_characters(Some(1)); }
+                8 => { s.resize(None, Some(c.max(2) - 1)); s.resize(None, Some(c + 2)); }
+                9 => { s.cursor_position(Some(1), Some(x + 1)); s.delete_characters(Some(1)); }
+                _ => { s.cursor_position(Some(1), Some(1)); s.insert_characters(Some(1)); s.resize(None, Some(c + 3)); }
+            }
+            s });
+        if let Some(s) = r { em.display_probe(&s); } else { em.bump("builder_panics"); }
+    } } } } }
     let geos: Vec<(u32, u32)> = SMALL.iter().chain(MED.iter()).cloned().collect();
     let n = if thorough { 5000 } else { 500 };
     for _ in 0..n {
